@@ -23,7 +23,7 @@ Step(e) ==
            /\ m' = [m EXCEPT !.have = TRUE, !.counts = e.counts, !.ring = rr, !.full = e.full]
            /\ Mark(size < m.min, "C37_SizeBelowMin", l)
            /\ Mark(size > m.max /\ ~(Tolerant /\ size = m.max + 1 /\ ExactSize(m.ws, m.min, m.max) = m.max), "C37_SizeAboveMax", l)
-           /\ Mark(~PropOk(m.ws, m.min, m.max, e.counts), "C37_Proportion", l)
+           /\ Mark(size <= 2 * m.max + 2 /\ ~PropOk(m.ws, m.min, m.max, e.counts), "C37_Proportion", l)   \* (guard: 32-bit products)
            /\ Drift(e.counts # ExactCounts(m.ws, m.min, m.max), "C37_CountsDifferFromExactReference", l)
            /\ Drift(e.full /\ ~Sorted(rr), "C37_RingNotSorted", l)
          ELSE
